@@ -1,8 +1,11 @@
 #!/bin/sh
-# import_refac.sh Cxx : copy a refactoring sub-agent's out/<k>/ into /verif/refactors/Cxx/<k>/
+# import_refac.sh Cxx : copy a refactoring sub-agent's out/<k>/ into /verif/refactors/Cxx/<k>/ (plus shared helper scripts)
 p=$1
+mkdir -p /verif/refactors/$p
+for f in /tmp/seed/$p/out/*.py; do [ -f "$f" ] && cp "$f" /verif/refactors/$p/; done
 for d in /tmp/seed/$p/out/*/; do
   k=$(basename $d)
+  [ -f $d/patch.diff ] || continue
   mkdir -p /verif/refactors/$p/$k
   cp $d/patch.diff $d/equiv.py $d/meta.json /verif/refactors/$p/$k/ 2>/dev/null
 done
